@@ -274,6 +274,65 @@ def gen_weights(rng, k, normalised=True):
     return [Fraction(x, s) for x in a]
 
 
+# ---- widely unequal coefficients ------------------------------------------------------------------
+# "arbitrary complex coefficients" includes a superposed term whose squared coefficient (its population) is far
+# below every precision-like constant of the code (the simulator's relative precision 1e-6, DensityMatrix.precision
+# 1e-6, min_p) while its AMPLITUDE is not negligible: the output probabilities depend on it through the interference
+# with the dominant terms, ~ 2·|c_weak|·|c_strong| ≫ |c_weak|².  A threshold applied to a population where only an
+# amplitude-scale quantity may be neglected shows exactly there.  The scales: relative amplitudes 1/37 … 1/100003
+# (populations 7e-4 … 1e-10, never a round power of ten: no tie with a threshold), kept above the native StateVector
+# cut-off (normalised modulus < 1e-6 is discarded by the container itself, see `loss_profile`).
+WEAK_SCALES = [37, 131, 307, 709, 1013, 1511, 3163, 10007, 31627, 100003]
+AMP_FLOOR = 3e-6                      # 3 × global_params['min_complex_component']
+WEAK_POP = 1e-6                       # a term is "weak" when its normalised population is below this
+
+
+def norm_amps(terms):
+    cs = [abs(cq(t["coef"])) * math.sqrt(term_scale(t["state"])) for t in terms]
+    nrm = math.sqrt(sum(c * c for c in cs))
+    return [c / nrm for c in cs]
+
+
+def weaken(rng, terms, scales=WEAK_SCALES):
+    """multiply the coefficient of one term (two when there are ≥ 3) by 1/scale — in place; the scale is lowered
+    until every normalised amplitude stays above AMP_FLOOR.  -> True when some term ended with population < WEAK_POP"""
+    if len(terms) < 2:
+        return False
+    idx = rng.sample(range(len(terms)), 2 if (len(terms) >= 3 and rng.random() < 0.4) else 1)
+    orig = {i: [Fraction(x) for x in terms[i]["coef"]] for i in idx}
+    for i in idx:
+        cands = sorted(scales, reverse=True)
+        k = cands.index(rng.choice(cands))
+        for s in cands[k:]:
+            terms[i]["coef"] = [core.rat(orig[i][0] / s), core.rat(orig[i][1] / s)]
+            if min(norm_amps(terms)) >= AMP_FLOOR:
+                break
+        else:
+            terms[i]["coef"] = [core.rat(orig[i][0]), core.rat(orig[i][1])]
+    return any(a * a < WEAK_POP for a in norm_amps(terms))
+
+
+def weak_info(members):
+    """-> set of shapes present: 'weak-term' (a superposed member has a term of population < 1e-6 next to a dominant
+    one), 'weak-coherent' (… of the SAME photon number: the two interfere in the output populations), 'weak-member'
+    (a member of relative weight < 1e-6)"""
+    out = set()
+    ws = [float(Fraction(mb["w"])) for mb in members]
+    if len(ws) > 1 and min(ws) < WEAK_POP * max(ws):
+        out.add("weak-member")
+    for mb in members:
+        if len(mb["terms"]) < 2:
+            continue
+        amps = norm_amps(mb["terms"])
+        ns = [state_n(t["state"]) for t in mb["terms"]]
+        for a, n in zip(amps, ns):
+            if 0 < a * a < WEAK_POP:
+                out.add("weak-term")
+                if any(b * b > 0.05 and k == n for b, k in zip(amps, ns)):
+                    out.add("weak-coherent")
+    return out
+
+
 # ---- keys of the SVDistribution dict ------------------------------------------------------------
 # Members of a mixture may share basis states; a photon-number sector of a superposed member may even BE another
 # member (or a sector of another member): `_preprocess_svd` then accumulates the weights of the equal keys.  Whether
@@ -439,6 +498,8 @@ def gen_case(rng, chk, kind, prec, fixed=None):
         if len(terms) < 2:
             terms = [{"coef": ["1", "0"], "state": [[0]] + [[] for _ in range(m - 1)]},
                      {"coef": ["1/2", "1"], "state": [[] for _ in range(m - 1)] + [[0]]}]
+        if rng.random() < 0.25:
+            weaken(rng, terms)
         case["members"] = [{"w": "1", "terms": terms}]
         case["outs"] = gen_outs(rng, m, [t["state"] for t in terms], 5)
     elif kind == "svd":
@@ -484,6 +545,9 @@ def gen_case(rng, chk, kind, prec, fixed=None):
                         members.append({"w": core.rat(Fraction(rng.choice([1, 3, 10, 40, 137, 300]), 1000)),
                                         "terms": terms})
             rng.shuffle(members)
+        sup = [mb for mb in members if len(mb["terms"]) >= 2]
+        if sup and rng.random() < 0.3:
+            weaken(rng, rng.choice(sup)["terms"])
         if rng.random() < 0.4:
             members = add_overlaps(rng, m, nm, ntags, members)
         case["members"] = members
@@ -505,14 +569,26 @@ def gen_dm_members(rng, m, nm, force_n=None, first=None):
         k = rng.randint(1, 4)
         used = set()
         members = []
+        # a superposed member with a weak term (population below 1e-6, amplitude not negligible), mostly of the photon
+        # number of a dominant term so that the two interfere in the output populations
+        weak = rng.random() < 0.45
         for w in gen_weights(rng, k, normalised=(rng.random() < 0.8)):
             if rng.random() < 0.4:
                 used = set()
-            terms = gen_terms(rng, m, nm if force_n is None else force_n, 0, rng.randint(1, 3), rng.random() < 0.5, used)
+            equal_n = rng.random() < (0.8 if weak else 0.5)
+            nt = rng.randint(2, 3) if weak else rng.randint(1, 3)
+            terms = gen_terms(rng, m, nm if force_n is None else force_n, 0, nt, equal_n, used)
             if terms:
                 if len(terms) == 1:
                     terms[0]["coef"] = ["1", "0"]
+                elif weak:
+                    weaken(rng, terms, WEAK_SCALES if rng.random() < 0.3 else WEAK_SCALES[4:])
+                    weak = False
                 members.append({"w": core.rat(w), "terms": terms})
+        # a member of tiny relative weight (a population far below DensityMatrix.precision on the diagonal)
+        if len(members) >= 2 and rng.random() < 0.15:
+            mb = rng.choice(members)
+            mb["w"] = core.rat(Fraction(mb["w"]) / rng.choice([1013 ** 2, 3163 ** 2, 31627 ** 2]))
         if first is not None:
             members.append({"w": core.rat(Fraction(rng.randint(1, 9), 10)), "terms": [{"coef": ["1", "0"], "state": first}]})
         if not members:
@@ -1195,6 +1271,11 @@ def judge_sv(chk, case, rep, sim, circuit, u, record):
     chk.branch("sv-unequal-n" if len(ns) > 1 else "sv-equal-n")
     if any(tags_of(t["state"]) not in ([], [0]) for t in terms):
         chk.branch("sv-tagged")
+    wk = weak_info(case["members"])
+    if "weak-term" in wk:
+        chk.branch("sv-weak-term")
+    if "weak-coherent" in wk:
+        chk.branch("sv-weak-coherent-term")
     norm2 = float(Fraction(rep["norm2"]))
     ex_amp = lean_amps(rep["evolve"], tags, norm2)
     spec_amp = py_sv_amps(u, m, terms)
@@ -1312,6 +1393,11 @@ def judge_svd(chk, case, rep, sim, circuit, u, record):
         chk.branch("svd-sector-twice")
     if default and ov & {"member+sector", "sector+sector"}:
         chk.branch("svd-key-accumulates-default-precision")
+    wk = weak_info(members)
+    if "weak-term" in wk:
+        chk.branch("svd-weak-term")
+        if default:
+            chk.branch("svd-weak-term-default-precision")
     tot = sum(Fraction(mb["w"]) for mb in members)
     if tot != 1:
         chk.branch("svd-unnormalised-weights")
@@ -1345,7 +1431,10 @@ def judge_svd(chk, case, rep, sim, circuit, u, record):
                    f"probs_svd({{{', '.join(str(build_sv(mb['terms'])) + ': ' + mb['w'] for mb in members[:6])}"
                    f"{', …' if len(members) > 6 else ''}}})[{d[0]}] = {d[1]!r}, the weighted sum of the members gives "
                    f"{d[2]!r}", spec_ok, prop_convex())
-        if tot == 1 and (not core.close(float(r["physical_perf"]), 1.0) or not core.close(float(r["logical_perf"]), 1.0)):
+        # (the generic path sums the squared moduli of the recombined vector before any normalisation: what the native
+        # container discarded of a weak term — `slack`, zero in general — shows in logical_perf as it does in the results)
+        if tot == 1 and (not core.close(float(r["physical_perf"]), 1.0) or
+                         abs(float(r["logical_perf"]) - 1.0) > 2 * core.TOL + 2 * slack):
             record("mixture-perf", f"perf ({r['physical_perf']}, {r['logical_perf']}) without any selection", False, True)
         return
     # default precision: members below the threshold are trimmed
@@ -1407,6 +1496,12 @@ def judge_dm(chk, case, rep, sim, circuit, u, record):
         raise Bad("model-internal", "diag(VρV†) differs from ∑ wᵢ|Vψᵢ|² inside the model")
     if any(len(mb["terms"]) > 1 for mb in members):
         chk.branch("dm-coherences")
+    # populations far below DensityMatrix.precision / the simulator's precision whose amplitudes are not negligible
+    wk = weak_info(members)
+    for shape in ("weak-term", "weak-coherent", "weak-member"):
+        if shape in wk:
+            chk.branch({"weak-term": "dm-weak-term", "weak-coherent": "dm-weak-coherent-term",
+                        "weak-member": "dm-weak-member"}[shape])
     svd = build_svd(members)
     dm = pcvl.DensityMatrix.from_svd(svd)
     basis = [tuple(b) for b in rep["basis"]]
@@ -1486,13 +1581,24 @@ def judge_dm(chk, case, rep, sim, circuit, u, record):
         evolved members, ∑ wᵢ |evolve(ψᵢ)⟩⟨evolve(ψᵢ)| (a coherence is observable behind any further circuit)"""
         s2 = make_sim(case["engine"], circuit, 0)
         ref = np.zeros((len(basis), len(basis)), dtype=complex)
+        rtol = np.zeros((len(basis), len(basis)))
         for mb in members:
             inp = build_sv(mb["terms"]) if len(mb["terms"]) > 1 else build_bs(mb["terms"][0]["state"])
             psi = np.zeros(len(basis), dtype=complex)
             for s_out, a in s2.evolve(inp):
                 psi[basis.index(tuple(s_out))] += complex(a)
-            ref += float(Fraction(mb["w"])) * np.outer(psi, psi.conj())
-        return bool((np.abs(got - ref) - 2 * etol).max() > 1e-7)
+            w = float(Fraction(mb["w"]))
+            ref += w * np.outer(psi, psi.conj())
+            # what the native container may have discarded of this member's evolved vector (contributions of modulus
+            # < 1e-6 of a weak term): the reference is uncertain by exactly that much
+            loss, _, _ = loss_profile(u, m, mb["terms"])
+            if loss:
+                lv = np.zeros(len(basis))
+                for k, l in loss.items():
+                    lv[basis.index(key_occ(k, m))] += l
+                ap = np.abs(psi) + lv
+                rtol += w * (np.outer(ap, lv) + np.outer(lv, ap))
+        return bool((np.abs(got - ref) - 2 * etol - rtol).max() > 1e-8)
 
     err = np.abs(got - exp) - etol
     if err.max() > core.TOL:
@@ -1727,6 +1833,8 @@ def run(chk: core.Check):
                              "session-dm-same-basis", "session-dm-new-support",
                              "gen:svd-sector-is-member", "gen:svd-sector-twice", "gen:svd-shared-basis-states",
                              "gen:session-dm-new-support",
+                             "sv-weak-term", "svd-weak-term", "dm-weak-term", "dm-weak-coherent-term", "dm-weak-member",
+                             "gen:sv-weak-term", "gen:svd-weak-term", "gen:dm-weak-coherent-term", "gen:dm-weak-member",
                              "pa-zero", "pa-nonzero", "rejected"]
     rng = chk.rng
     n_lean = chk.pick(4, 8)
@@ -1738,7 +1846,8 @@ def run(chk: core.Check):
         # shapes that the stored cases hit by construction must ALSO come out of the random generator
         gen_shapes = ["sv-history", "dm-nonreal-phase", "default-precision-superposed-multigroup", "budget-discriminating",
                       "budget-trims-member", "threshold-bites-generic", "svd-sector-is-member", "svd-sector-twice",
-                      "svd-shared-basis-states", "session-dm-new-support"]
+                      "svd-shared-basis-states", "session-dm-new-support", "sv-weak-term", "svd-weak-term",
+                      "dm-weak-coherent-term", "dm-weak-member"]
         before = {b: chk.branches.get(b, 0) for b in gen_shapes}
         plan = chk.pick({"bs": 110, "sv": 90, "svd": 90, "svd-default": 70, "dm": 40, "session": 36, "bad": 30},
                         {"bs": 1500, "sv": 1300, "svd": 1400, "svd-default": 600, "dm": 600, "session": 400, "bad": 300})
